@@ -18,6 +18,105 @@ BUILDERS = ["ConvexPolygon.Parallelogram", "ConvexPolyhedron.Parallelepiped", "C
             "ConvexPolyhedron.Sphere", "ConvexPolyhedron.Cylinder", "ConvexPolyhedron.Cone"]
 
 
+def r145_frame(ctx, res):
+    """every vertex lies in the plane through the centre perpendicular to the normal, on a circle: the two
+    frame vectors must be perpendicular to the normal *by construction* (cross products with the normal
+    as a factor), perpendicular to each other, and of equal length"""
+    import ast
+    from ..astutil import assigned_names, txt
+    from ..model import walk_local
+    from ..rcross import _strip_norm
+
+    fi = ctx.repo.fn("get_circle_point_list")
+    normal = fi.params[1]
+    asg = assigned_names(fi.node)
+
+    def canon_is_normal(e, depth=0) -> bool:
+        e = _strip_norm(e)
+        if isinstance(e, ast.Name):
+            if e.id == normal:
+                return True
+            defs = asg.get(e.id, [])
+            return depth < 3 and bool(defs) and all(isinstance(d, ast.Assign) and canon_is_normal(d.value, depth + 1) for d in defs)
+        return False
+
+    def is_unit_normal(e, depth=0) -> bool:
+        if isinstance(e, ast.Call) and isinstance(e.func, ast.Attribute) and e.func.attr in ("normalized", "unit"):
+            return canon_is_normal(e.func.value)
+        if isinstance(e, ast.Name) and depth < 3:
+            defs = asg.get(e.id, [])
+            return bool(defs) and all(isinstance(d, ast.Assign) and is_unit_normal(d.value, depth + 1) for d in defs)
+        return False
+
+    # the translation applied to the centre:  v1 * cos + v2 * sin
+    frame = []
+    for c in walk_local(fi.node):
+        if isinstance(c, ast.Call) and isinstance(c.func, ast.Attribute) and c.func.attr == "move" and c.args \
+                and isinstance(c.args[0], ast.BinOp) and isinstance(c.args[0].op, ast.Add):
+            for side in (c.args[0].left, c.args[0].right):
+                if isinstance(side, ast.BinOp) and isinstance(side.op, ast.Mult):
+                    for x in (side.left, side.right):
+                        if isinstance(x, ast.Name) and x.id in asg:
+                            frame.append(x.id)
+    if len(frame) != 2:
+        raise AnalysisError("%s: the circle's frame vectors could not be identified" % fi.where())
+    info = {}
+    for f in frame:
+        crosses, scales, other = [], [], []
+        for d in asg[f]:
+            if not isinstance(d, ast.Assign):
+                other.append(d)
+                continue
+            v = d.value
+            if isinstance(v, ast.BinOp) and isinstance(v.op, ast.Mult) and any(isinstance(x, ast.Name) and x.id == f for x in (v.left, v.right)):
+                scales.append(txt([x for x in (v.left, v.right) if not (isinstance(x, ast.Name) and x.id == f)][0]))
+                continue
+            normed = isinstance(v, ast.Call) and isinstance(v.func, ast.Attribute) and v.func.attr in ("normalized", "unit")
+            core = _strip_norm(v)
+            if isinstance(core, ast.Call) and isinstance(core.func, ast.Attribute) and core.func.attr == "cross" and len(core.args) == 1:
+                crosses.append((d, core.func.value, core.args[0], normed))
+            else:
+                other.append(d)
+        info[f] = (crosses, scales, other)
+    for f in frame:
+        crosses, scales, other = info[f]
+        for d in other:
+            res.ob("R14.5", fi.where(d), "frame vector %s: `%s`" % (f, txt(d)[:50]), False, "not a cross product with the normal")
+            res.violation("R14.5", fi, d,
+                          "the circle's frame vector `%s` is set by `%s`, which is not perpendicular to the normal by construction: for "
+                          "normals that are close to but not exactly along the axis the vertices leave the circle's plane" % (f, txt(d)[:60]),
+                          construct="get_circle_point_list: frame vector %s = %s" % (f, txt(d.value)[:50] if isinstance(d, ast.Assign) else "?"))
+        for d, X, Y, normed in crosses:
+            ok = canon_is_normal(X) or canon_is_normal(Y)
+            res.ob("R14.5", fi.where(d), "frame vector %s: `%s`" % (f, txt(d.value)[:50]), ok,
+                   "a cross product with the normal as a factor (perpendicular to it for every input)" if ok else "the normal is not a factor")
+            if not ok:
+                res.violation("R14.5", fi, d, "the circle's frame vector `%s = %s` is not a cross product with the normal: it need not lie "
+                              "in the circle's plane" % (f, txt(d.value)[:60]), construct="get_circle_point_list: frame vector %s cross" % f)
+    # mutual perpendicularity and equal length
+    a, b = frame
+    mutual = any(txt(_strip_norm(Y)) == a or txt(_strip_norm(X)) == a for _, X, Y, _ in info[b][0]) or \
+        any(txt(_strip_norm(Y)) == b or txt(_strip_norm(X)) == b for _, X, Y, _ in info[a][0])
+    unit_ok = True
+    for f, g_ in ((a, b), (b, a)):
+        for d, X, Y, normed in info[f][0]:
+            if normed:
+                continue
+            # un-normalised cross product: unit only if both factors are unit and perpendicular: unit normal x other frame vector
+            facs = [X, Y]
+            if not (any(is_unit_normal(z) for z in facs) and any(txt(_strip_norm(z)) == g_ for z in facs)):
+                unit_ok = False
+    same_scale = sorted(info[a][1]) == sorted(info[b][1])
+    ok = mutual and unit_ok and same_scale
+    res.ob("R14.5", fi.where(), "frame vectors are perpendicular to each other and of equal length", ok,
+           "one is the cross product of the unit normal with the other; both scaled by %s" % (info[a][1] or "1") if ok else
+           "mutual: %s, unit: %s, scales %s / %s" % (mutual, unit_ok, info[a][1], info[b][1]))
+    if not ok:
+        res.violation("R14.5", fi, fi.node, "the circle's frame is not orthogonal with equal lengths by construction (mutually "
+                      "perpendicular: %s, unit before scaling: %s, scale factors %s vs %s): the vertices would lie on an ellipse" % (
+                          mutual, unit_ok, info[a][1], info[b][1]), construct="get_circle_point_list: frame orthonormality")
+
+
 def run(ctx, res):
     res.explanation = (
         "Static decision of four structural clauses of C14: the seven builders (Parallelogram, Parallelepiped, Circle, "
@@ -52,7 +151,8 @@ def run(ctx, res):
                "receiver is fresh" if not m["recv"].S else "receiver may be %s" % sorted(m["recv"].S))
     # R14.2
     k = check_cross(ctx, res, ctx.repo.fn("get_circle_point_list"), "R14.2")
-    ctx.require(res, "R14.2", k, 2, "normalised cross products in get_circle_point_list (one per reaching definition of the base axis)")
+    ctx.require(res, "R14.2", k, 1, "normalised cross products in get_circle_point_list (one per reaching definition of the base axis)")
+    r145_frame(ctx, res)
     # R14.3
     check_guard(ctx, res, GuardOb("get_circle_point_list", "n >= 3", "a circle with n < 3 must be rejected",
                                   inputs_any={"n"}, min_accept=3, subject="n"), rule="R14.3")
